@@ -1,4 +1,223 @@
-(* C18 - printed paths are valid override paths; flag directives apply in order. *)
-From Fiddle Require Import PyBase PyText PathText Anchors.
+(* C18 - printed paths are valid override paths; flag directives apply in order.
+   Model: PyText (repr / literal_eval unescaping / decimal), PathText (daglish.path_str printers,
+   the command-line path grammar, the FiddleFlag directive fold).  C18Check tests these models
+   (and the statement of C18_parse_print on every generated case) against the implementation.
+   This file contains statements only; proofs live in theories/PathText_proofs.v.
+   Character codes: 46 '.', 91 '[', 93 ']', 39 single quote, 34 double quote, 92 backslash. *)
+From Fiddle Require Import PyBase PyText PathText C18Check PathText_proofs Anchors.
+Open Scope N_scope.
 
-Example C18_placeholder : True. Proof. exact I. Qed.
+(* ---- 1. repr / literal_eval on ASCII strings *)
+
+(* one escaped character is undone by one unescape step, whatever follows *)
+Theorem C18_unescape_repr_char :
+  forall q c rest f t,
+    q = 39 \/ q = 34 -> is_ascii c = true ->
+    unescape f rest = Some t ->
+    unescape (S f) (repr_char q c ++ rest) = Some (c :: t).
+Proof. exact unescape_repr_char. Qed.
+Print Assumptions C18_unescape_repr_char.
+
+Theorem C18_unhex_hex_digit : forall d, d < 16 -> unhex (hex_digit d) = Some d.
+Proof. exact unhex_hex_digit. Qed.
+Print Assumptions C18_unhex_hex_digit.
+
+(* literal_eval (repr s) = s; body strips the two quotes (C18Check.body = removelast . tl) *)
+Theorem C18_repr_unescape_roundtrip :
+  forall s, forallb is_ascii s = true ->
+    unescape (S (length (repr_str s))) (body (repr_str s)) = Some s.
+Proof. exact repr_unescape_roundtrip. Qed.
+Print Assumptions C18_repr_unescape_roundtrip.
+
+(* any fuel above the length of the string is enough *)
+Theorem C18_unescape_flat_map :
+  forall q s, q = 39 \/ q = 34 -> forallb is_ascii s = true ->
+    forall f, (length s < f)%nat -> unescape f (flat_map (repr_char q) s) = Some s.
+Proof. exact unescape_flat_map. Qed.
+Print Assumptions C18_unescape_flat_map.
+
+(* a quote-free key is printed with single quotes and its body has no single quote *)
+Theorem C18_key_ok_body_no_squote :
+  forall k, key_ok k = true ->
+    repr_quote k = 39 /\ forallb (fun x => negb (x =? 39)) (body (repr_str k)) = true.
+Proof. exact key_ok_body_no_squote. Qed.
+Print Assumptions C18_key_ok_body_no_squote.
+
+(* more generally: if the delimiter does not occur in the key, it does not occur in the body *)
+Theorem C18_body_no_delimiter :
+  forall q k, q = 39 \/ q = 34 -> forallb is_ascii k = true -> mem_ch q k = false ->
+    forallb (fun x => negb (x =? q)) (flat_map (repr_char q) k) = true.
+Proof. exact flat_map_repr_no_q. Qed.
+Print Assumptions C18_body_no_delimiter.
+
+(* ---- 2. decimal integers *)
+
+Theorem C18_parse_print_nat : forall n, parse_digits (print_nat n) 0 = n.
+Proof. exact parse_print_nat. Qed.
+Print Assumptions C18_parse_print_nat.
+
+Theorem C18_print_nat_digits : forall n, forallb is_digit (print_nat n) = true.
+Proof. exact print_nat_digits. Qed.
+Print Assumptions C18_print_nat_digits.
+
+Theorem C18_print_nat_nonempty : forall n, print_nat n <> [].
+Proof. exact print_nat_nonempty. Qed.
+Print Assumptions C18_print_nat_nonempty.
+
+(* ---- 3. what the printers emit is accepted by the command-line grammar and reads back as the
+        same path (an Index reads back as an integer Key: erase) *)
+
+(* one path element, provided the following text does not extend the token *)
+Theorem C18_match_part_print_telt :
+  forall t rest,
+    telt_ok t = true ->
+    match rest with [] => true | c :: _ => negb (is_word c) end = true ->
+    match_part 0 (print_telt t ++ rest) = Some (erase t, rest).
+Proof. exact match_part_print_telt. Qed.
+Print Assumptions C18_match_part_print_telt.
+
+(* the full text, with the leading dot *)
+Theorem C18_parse_print_tpath :
+  forall p, forallb telt_ok p = true ->
+    parse_tpath 0 (S (length (print_tpath p))) (print_tpath p) = Some (map erase p).
+Proof. exact parse_print_tpath. Qed.
+Print Assumptions C18_parse_print_tpath.
+
+(* main theorem, in the shape C18Check.check_case tests it: whether or not the printer stripped
+   the leading dot, parse_path (which puts the dot back) returns the printed path *)
+Theorem C18_parse_print :
+  forall p (strip : bool),
+    forallb telt_ok p = true -> p <> [] ->
+    parse_path_text 0 (if strip then strip_leading_dot (print_tpath p) else print_tpath p)
+    = Some (map erase p).
+Proof. exact parse_print_roundtrip. Qed.
+Print Assumptions C18_parse_print.
+
+Theorem C18_parse_print_printer :
+  forall p,
+    forallb telt_ok p = true -> p <> [] ->
+    parse_path_text 0
+      (if match p with TAttr _ :: _ => true | _ => false end
+       then strip_leading_dot (print_tpath p) else print_tpath p)
+    = Some (map erase p).
+Proof. exact parse_print_roundtrip_printer. Qed.
+Print Assumptions C18_parse_print_printer.
+
+(* the same on a wider key domain: ASCII keys that do not contain BOTH kinds of quote *)
+Theorem C18_parse_print_weak :
+  forall p (strip : bool),
+    forallb
+      (fun t => match t with
+                | TAttr nm => ident_ok nm
+                | TKeyStr k => forallb is_ascii k && negb (mem_ch 39 k && mem_ch 34 k)
+                | _ => true
+                end) p = true ->
+    p <> [] ->
+    parse_path_text 0 (if strip then strip_leading_dot (print_tpath p) else print_tpath p)
+    = Some (map erase p).
+Proof. exact parse_print_roundtrip_weak. Qed.
+Print Assumptions C18_parse_print_weak.
+
+(* the third conjunct of C18Check.check_case holds on every case whose text is the printed text *)
+Theorem C18_check_case_third_conjunct :
+  forall c,
+    c_text c = (if c_strip c then strip_leading_dot (print_tpath (c_path c)) else print_tpath (c_path c)) ->
+    c_path c <> [] ->
+    negb (forallb telt_ok (c_path c))
+    || (if otpath_eq_dec (parse_path_text 0 (c_text c)) (Some (map erase (c_path c))) then true else false)
+    = true.
+Proof. exact check_case_third_conjunct. Qed.
+Print Assumptions C18_check_case_third_conjunct.
+
+(* the hypotheses are needed: empty path, key with both quotes, non-identifier names *)
+Theorem C18_empty_path_not_roundtrip : parse_path_text 0 (print_tpath []) = None.
+Proof. exact empty_path_not_roundtrip. Qed.
+Print Assumptions C18_empty_path_not_roundtrip.
+
+Theorem C18_both_quotes_not_roundtrip :
+  print_tpath [TAttr [120]; TKeyStr [39; 34]] = [46; 120; 91; 39; 92; 39; 34; 39; 93] /\
+  parse_path_text 0 (print_tpath [TAttr [120]; TKeyStr [39; 34]]) = None.
+Proof. exact both_quotes_not_roundtrip. Qed.
+Print Assumptions C18_both_quotes_not_roundtrip.
+
+Theorem C18_bad_ident_not_roundtrip :
+  parse_path_text 0 (print_tpath [TAttr [120; 45]]) = None /\
+  parse_path_text 0 (print_tpath [TAttr []; TAttr [120]]) = None.
+Proof. exact bad_ident_not_roundtrip. Qed.
+Print Assumptions C18_bad_ident_not_roundtrip.
+
+(* ---- 4. why the grammar was repaired: x[''].x is printed for the empty key and the
+        unrepaired grammar ('[^']+', key_min_len = 1) rejects it *)
+Theorem C18_empty_key_needs_star :
+  let text := print_tpath [TAttr [120]; TKeyStr []; TAttr [120]] in
+  text = [46; 120; 91; 39; 39; 93; 46; 120] /\
+  parse_path_text 1 (strip_leading_dot text) = None /\
+  parse_path_text 1 text = None /\
+  parse_path_text 0 (strip_leading_dot text) = Some [TAttr [120]; TKeyStr []; TAttr [120]].
+Proof. exact empty_key_needs_star. Qed.
+Print Assumptions C18_empty_key_needs_star.
+
+(* ---- 5. flag directives: consumed strictly in order *)
+
+(* success iff the list is empty or is one base directive followed by non-base ones; the applied
+   list is then the input list itself: nothing dropped, nothing reordered *)
+Theorem C18_directives_ok_iff :
+  forall ds ds',
+    run_directives ds false [] = FOk ds' <->
+    (ds' = ds /\
+     (ds = [] \/
+      exists d rest, ds = d :: rest /\ is_base d = true /\
+                     forallb (fun x => negb (is_base x)) rest = true)).
+Proof. exact directives_ok_iff. Qed.
+Print Assumptions C18_directives_ok_iff.
+
+Theorem C18_directives_applied_in_order :
+  forall ds ds', run_directives ds false [] = FOk ds' -> ds' = ds.
+Proof. exact directives_applied_in_order. Qed.
+Print Assumptions C18_directives_applied_in_order.
+
+Theorem C18_directives_err_first_iff :
+  forall ds,
+    run_directives ds false [] = FErrFirstNotBase <->
+    exists d rest, ds = d :: rest /\ is_base d = false.
+Proof. exact directives_err_first_iff. Qed.
+Print Assumptions C18_directives_err_first_iff.
+
+Theorem C18_directives_err_second_iff :
+  forall ds,
+    run_directives ds false [] = FErrSecondBase <->
+    exists d rest, ds = d :: rest /\ is_base d = true /\ existsb is_base rest = true.
+Proof. exact directives_err_second_iff. Qed.
+Print Assumptions C18_directives_err_second_iff.
+
+(* the general fold, from the state "base already seen" with an arbitrary accumulator *)
+Theorem C18_run_directives_after_base :
+  forall ds acc r,
+    run_directives ds true acc = FOk r <->
+    (r = acc ++ ds /\ forallb (fun x => negb (is_base x)) ds = true).
+Proof. exact run_true_ok. Qed.
+Print Assumptions C18_run_directives_after_base.
+
+Theorem C18_directives_order_sensitive :
+  run_directives [DConfig 1; DSet 2; DFiddler 3] false [] = FOk [DConfig 1; DSet 2; DFiddler 3] /\
+  run_directives [DSet 2; DConfig 1; DFiddler 3] false [] = FErrFirstNotBase /\
+  run_directives [DConfig 1; DSet 2; DConfigStr 4] false [] = FErrSecondBase /\
+  run_directives [DConfig 1; DFiddler 3; DSet 2] false [] = FOk [DConfig 1; DFiddler 3; DSet 2].
+Proof. exact directives_order_sensitive. Qed.
+Print Assumptions C18_directives_order_sensitive.
+
+(* ---- 6. non-vacuity: model.layers[3]['drop \out<LF><SOH><DEL>'][10].rate *)
+Theorem C18_example_roundtrip :
+  let p := [TAttr [109;111;100;101;108]; TAttr [108;97;121;101;114;115]; TIndex 3;
+            TKeyStr [100;114;111;112;32;92;111;117;116;10;1;127]; TKeyInt 10; TAttr [114;97;116;101]] in
+  forallb telt_ok p = true /\
+  strip_leading_dot (print_tpath p) =
+    [109;111;100;101;108; 46; 108;97;121;101;114;115; 91;51;93;
+     91;39; 100;114;111;112;32; 92;92; 111;117;116; 92;110; 92;120;48;49; 92;120;55;102; 39;93;
+     91;49;48;93; 46; 114;97;116;101] /\
+  parse_path_text 0 (strip_leading_dot (print_tpath p)) =
+    Some [TAttr [109;111;100;101;108]; TAttr [108;97;121;101;114;115]; TKeyInt 3;
+          TKeyStr [100;114;111;112;32;92;111;117;116;10;1;127]; TKeyInt 10; TAttr [114;97;116;101]] /\
+  parse_path_text 0 (print_tpath p) = Some (map erase p).
+Proof. exact example_roundtrip. Qed.
+Print Assumptions C18_example_roundtrip.
